@@ -178,6 +178,15 @@ def run(ctx):
     elif agree_fail:
         ctx.violation("correspondence", {"what": "correspondence Match/Assign.v vs Equality._do_assignment_new_impl / real runs no longer checks (Harness/C14Cmp); theorem C14_table is about the model only",
                                          "disagreeing_case": get(agree_fail[0])}, no_input=True)
+    # the translator tie: Equality's assignment decision as written in the source of the tree under test, regenerated and (when the text
+    # differs from the checked-in Match/AsgSrc.v) re-proved equal to the model
+    import srctie
+    tie = srctie.check(ctx, "assign")
+    if tie["status"] in ("untranslatable", "unproved") and not ctx.violations:
+        ctx.violation("source-tie", {"what": "the translation of Equality._do_assignment_new_impl / _latch_and_onchange / _set_variable_if from csvpath/matching/productions/equality.py is no longer "
+                                             "proved equal to the model: theorem do_assignment_src_eq (C14_source, C14_source_table) does not check against the source of this tree; "
+                                             "the generated cases of this run found no input on which the property fails",
+                                     "theorem": "do_assignment_src_eq (C14_source, C14_source_table)", "tie": tie}, no_input=True)
     ctx.coverage.update({
         "evaluations": len(kcases) + len(rjobs),
         "distinct_nontrivial": len({(qs, vals, rest) for (qs, vals, rest, _, _t), o in zip(rjobs, rres) if not o["exc"] and len({x for _, x in o["obs"]}) > 1}),
@@ -192,6 +201,7 @@ def run(ctx):
         "correspondence": f"model == implementation on {len(kcases) - len(kbad['c14k_agree'])}/{len(kcases)} kernel calls and {len(rjobs) - len(rbad['c14r_agree'])}/{len(rjobs)} runs",
         "spec_failures": len(spec_fail),
     })
+    ctx.coverage["source_tie"] = {"status": tie["status"], "detail": tie["detail"][:400]}
 
 
 def replay(ctx, payload):
